@@ -266,6 +266,19 @@ def geometry(tier, rng):
                   "-%sa\n- b\n", "k:%sv\nm: n\n", "?%sk\n:%sv\n", "[a,%sb]\n", "{k:%sv}\n", "a%s# c\nb\n", "|%s\n x\ny\n", "---%sa\n", "&a%sx\n", "!t%sx\n",
                   "'q'%s: v\n", "a\n...%s\nb\n", "%sa: b\n", "a: b%s\n", "- a%s\n- b\n", "\"x%sy\"\n", "k: |\n  a%s\n  b\n", "# c%sd\nv\n", "*a%s\n"):
             out.append(t.replace("%s", w).replace("%%", "%"))
+    # implicit keys around the 1024-character limit, in block context (limited, one line), as the single pair of a flow
+    # sequence (limited) and inside flow mappings (unlimited, may span lines): on one line and over several lines, so that the
+    # distance to the ':' is below the limit with one-character breaks and above it with CR LF
+    for L in (990, 1020, 1022, 1023, 1024, 1025, 1026, 1060, 1100, 2100):
+        k = "k" * L
+        out += [k + ": v\n", "\"" + k + "\": v\n", "{" + k + ": v}\n", "{\"" + k + "\": 1}\n", "{ '" + k + "' : 1 }\n", "[" + k + ": v]\n",
+                "[\"" + k + "\": v]\n", "- {a: 1, " + k + ": v}\n", "x: [1, {" + k + ": [" + k + "]}]\n", "{? " + k + " : v}\n", "[? " + k + " : v]\n"]
+    for nlines in (38, 39, 40, 41, 42, 44):
+        body = ("abcdefghijklmnopqrstuvwx\n" * nlines)[:-1]
+        for nl in ("\n", "\r\n", "\r"):
+            b = body.replace("\n", nl)
+            out += ["{" + nl + "\"" + b + "\": v }" + nl, "{ '" + b + "': v }" + nl, "[" + nl + "\"" + b + "\": v ]" + nl,
+                    "{ a: 1," + nl + " " + b.replace(nl, nl + " ") + ": v }" + nl]
     # runs of document markers between, before and behind documents
     A = ["a: 1\n", "- x\n", "", "# c\n", "--- a\n", "a\n...\n", "%YAML 1.2\n--- a\n", "|\n x\n", "[a]\n", "--- |\n", "&x a\n",
          "%TAG !e! tag:e,\n--- !e!a b\n"]
